@@ -165,6 +165,40 @@ theorem Cl_of (ps : Pieces) (h : scan 1 ps = some 0) : Cl ps := by
   have := scan_shift ps 1 0 n h
   simpa [Nat.add_comm] using this
 
+
+/-! ### template expansions -/
+
+/-- the template mark -/
+theorem B_mark : B [.raw []] := Or.inl (by decide)
+theorem B_bad : B [.bad] := B_piece .bad rfl
+
+theorem getD_cases {α} (l : List α) (i : Nat) (dflt : α) : l.getD i dflt ∈ l ∨ l.getD i dflt = dflt := by
+  simp only [List.getD_eq_getElem?_getD]
+  cases h : l[i]? with
+  | none => right; rfl
+  | some x => left; simpa using List.mem_of_getElem? h
+
+/-- literal chunks and the renderings of the supplied expressions -/
+theorem B_flatMap_template (rendered : List Pieces) (hr : ∀ ps ∈ rendered, B ps) :
+    ∀ l : List Template.Piece, B (l.flatMap (fun | .lit s => [Piece.raw s] | .val i => rendered.getD i [.bad]))
+  | [] => B_nil
+  | .lit s :: r => by
+    simp only [List.flatMap_cons]
+    exact B.app (B_raw s) (B_flatMap_template rendered hr r)
+  | .val i :: r => by
+    simp only [List.flatMap_cons]
+    refine B.app ?_ (B_flatMap_template rendered hr r)
+    rcases getD_cases rendered i [.bad] with h | h
+    · exact hr _ h
+    · rw [h]; exact B_bad
+
+theorem B_template {d : Backend} (t : String) (rendered : List Pieces) (hr : ∀ ps ∈ rendered, B ps) :
+    B (rTemplate d t rendered) := by
+  simp only [rTemplate]
+  split
+  · exact B_bad
+  · exact B_flatMap_template rendered hr _
+
 macro "bal" : tactic => `(tactic| first | exact Bk_of _ _ (by rfl) | exact Cl_of _ (by rfl))
 
 end SeaQ.Balance
